@@ -366,7 +366,7 @@ def ch_segserve(ctx) -> Channel:
                 mod, origin = int(mod), int(origin)
                 stored = t.stored_tfdt[mod - 1] if t.has_tfdt else sum(t.durs[:mod - 1])
                 pred = (200, stored + origin, int(num) & 0xFFFFFFFF)   # Model.servedSeq
-                if segchecks.event_id_overflow(f.manifest, f.mode, f.value, f.adv_d, t,
+                if segchecks.event_id_overflow(f.url, f.mode, f.value, f.adv_d, t,
                                                tfdt=stored + origin, dur=t.durs[mod - 1]):
                     # the handler's decision was "serve", but an in-band event of this segment has an id
                     # beyond 32 bits: the request is refused while the emsg box is built (C14's open finding
